@@ -1002,22 +1002,30 @@ func main() {
 			}
 			var code string
 			var resultType string
+			var multi [][2]string
+			multiCount := 0
 			switch {
 			case tg.ReturnOf != "":
 				idx, _ := strconv.Atoi(tg.ReturnOf)
-				var last *ast.ReturnStmt
+				var rets []*ast.ReturnStmt
 				ast.Inspect(fd.Body, func(n ast.Node) bool {
+					if _, ok := n.(*ast.FuncLit); ok {
+						return false
+					}
 					if r, ok := n.(*ast.ReturnStmt); ok && len(r.Results) > idx {
-						last = r
+						rets = append(rets, r)
 					}
 					return true
 				})
-				if last == nil {
+				if len(rets) == 0 {
 					fail("no return with %d results in %s", idx+1, tg.Func)
 				}
-				s, ty := t.expr(last.Results[idx])
-				code = s
-				resultType = coqType(ty)
+				for k, r := range rets {
+					s, ty := t.expr(r.Results[idx])
+					multi = append(multi, [2]string{fmt.Sprintf("%s_%d", name, k+1), s})
+					resultType = coqType(ty)
+				}
+				multiCount = len(rets)
 			case tg.Fragment != nil:
 				want := map[string]bool{}
 				for _, v := range tg.Fragment {
@@ -1102,7 +1110,14 @@ func main() {
 				emitRec(f, n)
 			}
 			body.WriteString(fmt.Sprintf("(* %s:%d  %s *)\n", tg.File, fset.Position(fd.Pos()).Line, tg.Func))
-			body.WriteString("Definition " + name + " " + strings.Join(params, " ") + " : " + resultType + " :=\n" + prelude + code + ".\n\n")
+			if multi != nil {
+				for _, m := range multi {
+					body.WriteString("Definition " + m[0] + " " + strings.Join(params, " ") + " : " + resultType + " :=\n" + m[1] + ".\n")
+				}
+				body.WriteString(fmt.Sprintf("Definition %s_sites : nat := %d.\n\n", name, multiCount))
+			} else {
+				body.WriteString("Definition " + name + " " + strings.Join(params, " ") + " : " + resultType + " :=\n" + prelude + code + ".\n\n")
+			}
 			funcs[tg.Func] = true
 			funcs[name] = true
 			coqName[tg.Func] = name
